@@ -186,9 +186,37 @@ func checkSetGate(p *Prog, r *Report, kt *kindTable) {
 	r.fn(funcName(f))
 	// find data[key] = v under the facts attr.Type == typ && attr.Nullable == nullable where (typ, nullable) = GetAttrType(Sprintf("%T", v))
 	good := false
-	eachInstr(f, func(ins ssa.Instruction) {
+	// the value given to Set, in Set itself or in a small helper it hands it to
+	isGiven := func(v ssa.Value) bool {
+		if v == ssa.Value(f.Params[2]) {
+			return true
+		}
+		prm, ok := v.(*ssa.Parameter)
+		if !ok || prm.Parent() == f || !smallHelper(prm.Parent()) {
+			return false
+		}
+		g := prm.Parent()
+		idx := -1
+		for i, q := range g.Params {
+			if q == prm {
+				idx = i
+			}
+		}
+		n := 0
+		allGiven := true
+		eachInstr(f, func(i2 ssa.Instruction) {
+			if c, ok := i2.(*ssa.Call); ok && c.Common().StaticCallee() == g && idx >= 0 && idx < len(c.Common().Args) {
+				n++
+				if c.Common().Args[idx] != ssa.Value(f.Params[2]) {
+					allGiven = false
+				}
+			}
+		})
+		return n > 0 && allGiven
+	}
+	eachInstrOf(append([]*ssa.Function{f}, stringHelpers(f)...), func(ins ssa.Instruction) {
 		mu, ok := ins.(*ssa.MapUpdate)
-		if !ok || mu.Value != ssa.Value(f.Params[2]) {
+		if !ok || !isGiven(mu.Value) {
 			return
 		}
 		var kindEq, nullEq bool
